@@ -85,6 +85,16 @@ func runHistory(t *rapid.T, o historyOpts, st *propStats) {
 				opBytes = []byte(spell(t, v, 1))
 			}
 		}
+		if c.Class == "valid" && rapid.IntRange(0, 5).Draw(t, "withoutTypeMember") == 0 {
+			// an anchored operation carries its type beside the request; the request's own "type" member is optional there
+			// (the long-form initial state, for one, does not have it)
+			if v, derr := decodeIJSON(opBytes); derr == nil {
+				if mm, ok := v.(map[string]interface{}); ok {
+					delete(mm, "type")
+					opBytes = []byte(refJCS(mm))
+				}
+			}
+		}
 		op := anchoredBytes(typ, opBytes, suffix, m)
 		if rapid.IntRange(0, 4).Draw(t, "opAmongUnpublished") == 0 {
 			// the operation being applied may itself be listed among the state's unpublished operations (this is how a create
